@@ -245,6 +245,14 @@ pub struct MultiAddrCase {
     pub via_alias: u8,
     pub mode: String,
     pub settle: usize,
+    /// true: the nodes' advertised addresses are unroutable (default wildcard listen address), they are reachable only at one
+    /// address per plane and every connection is dialled explicitly on one plane; false: the advertised address is plane 0
+    #[serde(default)]
+    pub unroutable_advertised: bool,
+    /// true: the nodes join one after the other (each join settles before the next), so that nobody ever dials a node it is
+    /// about to be dialled by; false: both dial node 0 in the same instant (cross-dial race, see finding F15)
+    #[serde(default)]
+    pub sequential: bool,
 }
 
 pub fn run_multi_addr(c: &MultiAddrCase) -> CaseResult {
@@ -253,12 +261,21 @@ pub fn run_multi_addr(c: &MultiAddrCase) -> CaseResult {
     for _ in 0..3 {
         net.add_node(&base_config(mode, Type::Tap, 0, &[0]), false);
     }
-    let alias = addr_of(201);
-    net.aliases = vec![(alias, 0)];
-    let real = net.addrs[0];
-    for i in 1..3usize {
+    // two-plane underlay: node 0 is reachable at its advertised address (plane 0) and at a plane-1 address it does not know
+    net.two_planes = true;
+    net.real_unroutable = c.unroutable_advertised;
+    let alias = plane1_addr(0);
+    let real = if c.unroutable_advertised { plane0_addr(0) } else { net.addrs[0] };
+    for i in (1..3usize).rev() {
         let target = if c.via_alias & (1 << (i - 1)) != 0 { alias } else { real };
         net.configure_peer(i, target);
+        if c.sequential {
+            net.deliver_all(512);
+            for _ in 0..3 {
+                net.tick();
+                net.deliver_all(512);
+            }
+        }
     }
     net.deliver_all(512);
     for _ in 0..c.settle {
@@ -268,6 +285,11 @@ pub fn run_multi_addr(c: &MultiAddrCase) -> CaseResult {
     for i in 0..3 {
         net.pop_frames(i);
     }
+    if std::env::var("VERIF_TRACE").is_ok() {
+        for i in 0..3 {
+            eprintln!("node {} peers {:?} own {:?}", i, net.nodes[i].verif_peers().iter().map(|p| (p.addr, p.addrs.clone())).collect::<Vec<_>>(), net.nodes[i].verif_own_addresses());
+        }
+    }
     // one session per node: nobody holds two peer entries with the same node id
     for i in 0..3 {
         let ids: Vec<_> = net.nodes[i].verif_peers().iter().map(|p| p.node_id).collect();
@@ -275,7 +297,10 @@ pub fn run_multi_addr(c: &MultiAddrCase) -> CaseResult {
         uniq.sort();
         uniq.dedup();
         if uniq.len() != ids.len() {
-            return Err(Fail::new("duplicate_session", format!("node {} holds {} peer entries for {} distinct nodes: {:?}", i, ids.len(), uniq.len(), net.nodes[i].verif_peers().iter().map(|p| p.addr).collect::<Vec<_>>())));
+            return Err(Fail::new("duplicate_session", format!("node {} holds {} peer entries for {} distinct nodes: {:?}", i, ids.len(), uniq.len(), net.nodes[i].verif_peers().iter().map(|p| p.addr).collect::<Vec<_>>()))
+                .with("advertised_address_routable", !c.unroutable_advertised)
+                .with("some_node_uses_plane1", c.via_alias != 0)
+                .with("sequential_join", c.sequential));
         }
         if uniq.len() != 2 {
             return Err(Fail::new("no_full_mesh", format!("node {} has {} peers after {} s", i, uniq.len(), c.settle)));
@@ -307,7 +332,10 @@ pub fn run(ctx: &Ctx) {
     for via_alias in 0..4u8 {
         for mode in ["switch", "hub"] {
             for settle in [5usize, 100, 200] {
-                multi.push(MultiAddrCase { via_alias, mode: mode.to_string(), settle });
+                for sequential in [false, true] {
+                    multi.push(MultiAddrCase { via_alias, mode: mode.to_string(), settle, unroutable_advertised: false, sequential });
+                    multi.push(MultiAddrCase { via_alias, mode: mode.to_string(), settle, unroutable_advertised: true, sequential });
+                }
             }
         }
     }
